@@ -13,6 +13,7 @@ package main
 //       Monitors (schedule independent): per caller the target saw exactly its x's in order; each caller got
 //       exactly the y's of its own requests in order; y_k is the shape's value; StartWithVal's value reached the
 //       first YieldRef.  Observation: "ok total=<T> first=<V|nil|none>"  or  "viol <kind> ...".
+//   zero ty=T     one caller asks [zero,5,zero,6], the target yields [3,zero,4,zero] (zero of T: 0 / nil) -> "ok zero"
 //   donot v=V     DoNotation returns the effect's result          -> "ok <V>"
 //   yfio v=V      YieldFromIO returns the IO's value              -> "ok <V>"
 //   flags         IsStarted/IsDone before Start, while running, after the effect returned -> "b0 b0 b1 b0 b1 b1"
@@ -228,10 +229,88 @@ func c14PairG[T any](par map[string]string, box func(int) T, unbox func(T) (int,
 	if firstStr != wantFirst {
 		return fmt.Sprintf("viol startval first=%s want=%s", firstStr, wantFirst)
 	}
+	// close() sets isClosed right AFTER the effect returned (tdone is closed by the effect's own defer): give the
+	// target goroutine time to get there — on a loaded machine it may be descheduled in between
+	flagDeadline := time.Now().Add(3 * time.Second)
+	for !tg.IsDone() && time.Now().Before(flagDeadline) {
+		time.Sleep(100 * time.Microsecond)
+	}
 	if !tg.IsDone() || !tg.IsStarted() {
 		return "viol flags"
 	}
 	return fmt.Sprintf("ok total=%d first=%s", total, firstStr)
+}
+
+// c14Zero: requests and yielded values that are the zero value of T (nil for interface{} / pointers) are values
+// like any other: one caller asks [zero, 5, zero, 6], the target yields [3, zero, 4, zero]; the target must see
+// exactly those requests and the caller exactly those answers.
+func c14Zero(par map[string]string) string {
+	switch par["ty"] {
+	case "any":
+		return c14ZeroG[interface{}](func(i int) interface{} { return i }, func(v interface{}) string {
+			if v == nil {
+				return "z"
+			}
+			return strconv.Itoa(v.(int))
+		})
+	case "ptr":
+		return c14ZeroG[*int](func(i int) *int { return &i }, func(v *int) string {
+			if v == nil {
+				return "z"
+			}
+			return strconv.Itoa(*v)
+		})
+	}
+	return c14ZeroG[int](func(i int) int { return i }, func(v int) string {
+		if v == 0 {
+			return "z"
+		}
+		return strconv.Itoa(v)
+	})
+}
+
+func c14ZeroG[T any](box func(int) T, show func(T) string) string {
+	var zero T
+	xs := []T{zero, box(5), zero, box(6)}
+	ys := []T{box(3), zero, box(4), zero}
+	var saw, got []string
+	var tg *fpgo.CorDef[T]
+	tdone := make(chan struct{})
+	tg = fpgo.CorNewGenerics[T](func() {
+		defer close(tdone)
+		for _, y := range ys {
+			saw = append(saw, show(tg.YieldRef(y)))
+		}
+	})
+	tg.Start()
+	cdone := make(chan struct{})
+	go func() {
+		defer close(cdone)
+		me := fpgo.CorNewGenerics[T](func() {})
+		for _, x := range xs {
+			got = append(got, show(me.YieldFrom(tg, x)))
+		}
+	}()
+	deadline := time.After(5 * time.Second)
+	for _, ch := range []chan struct{}{cdone, tdone} {
+		select {
+		case <-ch:
+		case <-deadline:
+			select {
+			case <-cdone:
+				return "viol hang target-still-waiting-for-requests caller-returned"
+			default:
+				return "viol hang caller-blocked"
+			}
+		}
+	}
+	if strings.Join(saw, ",") != "z,5,z,6" {
+		return "viol zero-request target-saw=" + strings.Join(saw, ",")
+	}
+	if strings.Join(got, ",") != "3,z,4,z" {
+		return "viol zero-answer caller-got=" + strings.Join(got, ",")
+	}
+	return "ok zero"
 }
 
 func c14Bool(b bool) string {
@@ -255,6 +334,8 @@ func c14Run(line string) string {
 	switch fields[0] {
 	case "pair":
 		return c14Pair(par)
+	case "zero":
+		return c14Zero(par)
 	case "donot":
 		v, _ := strconv.Atoi(par["v"])
 		var c fpgo.CorDef[int]
@@ -317,6 +398,10 @@ func c14Gen(tier string, rng *rand.Rand, emit func(string)) map[string]interface
 		e(fmt.Sprintf("pair ty=%s shape=echo reqs=2,3,1 startval=nil seed=9 jitter=1 park=1", ty))
 		e(fmt.Sprintf("pair ty=%s shape=acc reqs=2,2 startval=6 seed=10 jitter=1 park=0", ty))
 		e(fmt.Sprintf("pair ty=%s shape=acc reqs=4,1 startval=0 seed=11 jitter=0 park=1", ty))
+	}
+	// zero / nil requests and yielded values are values like any other
+	for _, ty := range []string{"int", "any", "ptr"} {
+		e("zero ty=" + ty)
 	}
 	e("donot v=0")
 	e("donot v=41")
